@@ -237,6 +237,11 @@ func (s *Set) Intersect(t Set) error {
 			if telem.min.greaterThan(selem.min) || (telem.min.equal(selem.min) && telem.minOpen) {
 				min = telem.min
 				minOpen = telem.minOpen
+			} else if telem.min.equal(selem.min) && telem.minOpen == selem.minOpen && telem.min.isPrerelease {
+				// The bounds tie. A bound the user wrote with a prerelease tag
+				// enables prerelease matching in span.contains; the equal bound
+				// made by MinVersion does not, so keep the user's.
+				min = telem.min
 			}
 			if telem.max.lessThan(selem.max) || (telem.max.equal(selem.max) && telem.maxOpen) {
 				max = telem.max
